@@ -220,10 +220,15 @@ Section Loops.
 End Loops.
 
 (* ---- flags (imap/command/flags.go) *)
+(* ParseFlag: an optional backslash, then an atom.  "\Recent" (any letter case) is refused; the KEYWORD recent - the same
+   letters without the backslash - is an ordinary flag-keyword.  `recent_rejected_only_with_backslash` (read from the
+   source) says that the strings.EqualFold(flag, "recent") test sits inside `if hasBackslash`; otherwise the test is
+   applied to both forms. *)
 Definition p_flag : P bytes :=
   bsl <- p_matchb (tok_is TT_Backslash) ;;
-  if bsl then a <- p_atom ;; if bytes_eqb (lower a) (s2b "recent") then fail else ret (bBS :: a)
-  else p_atom.
+  a <- p_atom ;;
+  if (bsl || negb recent_rejected_only_with_backslash) && bytes_eqb (lower a) (s2b "recent") then fail
+  else ret (if bsl then bBS :: a else a).
 Definition p_flag_list (fuel : nat) : P (list bytes) :=
   p_consume (tok_is TT_LParen) ;;;
   fl <- (fun bs => if cur_tok bs =? TT_RParen then ROk [] bs else p_sep_list fuel (tok_is TT_SP) p_flag bs) ;;
